@@ -281,9 +281,12 @@ def run_api(ctx, pid, viol, stats, weights=None, sessions=None, nops=None, varia
                 for op in ctx.rnd('sample-api').sample(sess.ops, min(4, len(sess.ops))):
                     st['samples'].append(op.block()[:5])
             if sess.crashed:
-                viol.append(Violation('crash', 'crash:' + (sess.script[-1].split()[0] if sess.script else '?'),
-                                      'the real code crashed / was stopped by a sanitizer in an API history (%s): %s' % (variant, sess.crashed[:1500]),
-                                      script=sess.script[-700:], suite=tag, variant=variant, found_input=True))
+                opn = sess.script[-1].split()[0] if sess.script else '?'
+                inside = cone is None or (opn in cone) or (isinstance(cone, dict) and '*' in cone)
+                viol.append(Violation('crash', 'crash:' + opn,
+                                      ('the real code crashed / was stopped by a sanitizer in an API history (%s): %s' if inside else
+                                       'exploration of this property was cut short: the real code crashed in "' + opn + '", a call outside this property\'s concern (%s): %s') % (variant, sess.crashed[:1500]),
+                                      script=sess.script[-700:], suite=tag, variant=variant, found_input=inside))
             for (p, key, msg, script) in g.viol:
                 if p == pid or p in ALSO.get(pid, ()):
                     viol.append(Violation('oracle', key, msg, script=script[-700:], suite=tag, variant=variant, found_input=True))
